@@ -1,4 +1,4 @@
 From Coq Require Import Extraction ExtrOcamlBasic.
-From MakoV Require Import Lib.Str Gen.Reserved Model.Scope.
+From MakoV Require Import Lib.Str Gen.Reserved Model.Scope Model.Idents.
 Extraction Language OCaml.
-Extraction "../ocaml/c04/model.ml" N.of_nat resolve run_body new_context conflict.
+Extraction "../ocaml/c04/model.ml" N.of_nat resolve run_body new_context conflict branch branch_template to_write.
